@@ -95,8 +95,8 @@ FormKindOf(i, rr) ==
     ELSE IF rr.err.rule = 3 THEN rr.err.kind ELSE "InvalidBodyEncoding"
 
 ViewOf(i, b, rr, cp) ==
-    LET first == IF rr.err.rule # 0 THEN {rr.err.rule}
-                 ELSE IF rr.tsdc /\ TsRefused(i) THEN {10} ELSE {}
+    LET first == IF rr.tsdc /\ TsRefused(i) /\ rr.err.rule \in {0, 11, 12, 13, 14} THEN {10}
+                 ELSE IF rr.err.rule # 0 THEN {rr.err.rule} ELSE {}
         sigbad == IF first = {} /\ ~SigGood(b, rr, cp) THEN {16} ELSE {}
     IN [defects  |-> first \cup sigbad,
         carrier  |-> IF rr.err.rule \in {1, 2, 3} THEN "hdr" ELSE rr.carrier,
